@@ -748,6 +748,27 @@ func decodedSlice(v ssa.Value) bool {
 	if _, ok := v.(*ssa.Field); ok {
 		return true
 	}
+	// the decoded slice handed on through a result variable (`nodes, err := fetch()` inlined): every origin but nil is a
+	// decoded field
+	if _, isPhi := v.(*ssa.Phi); isPhi {
+		n := 0
+		all := an.OriginsAll(v, func(o ssa.Value) bool {
+			o = an.Strip(o)
+			if k, ok := o.(*ssa.Const); ok && k.IsNil() {
+				return true
+			}
+			if f, _ := an.LoadedField(o); f != nil {
+				n++
+				return true
+			}
+			if _, ok := o.(*ssa.Field); ok {
+				n++
+				return true
+			}
+			return false
+		})
+		return all && n > 0
+	}
 	return false
 }
 
